@@ -76,4 +76,39 @@ pub fn c04(rep: &mut Report, tier: &str, seed: u64) {
     rep.required.push((name.clone(), "terminator_paired".into()));
     rep.required.push((name.clone(), "terminator_enter".into()));
     rep.required.push((name, "csi".into()));
+    // through the whole Cli: every Enter is one dispatch and one fresh prompt, CR LF pairs count once,
+    // nothing of an ignorable sequence reaches the line or the screen
+    let ign = |b: &'static [u8]| k(Key::Ignored(b));
+    let events = vec![
+        ch('a'),
+        ch('['),
+        ch('é'),
+        k(Key::Bs),
+        k(Key::Left),
+        k(Key::Up),
+        k(Key::Cr),
+        k(Key::Lf),
+        ign(b"\x1b[1;5~"),
+        ign(b"\x1b[?25h"),
+        ign(b"\x1b[2J"),
+        ign(b"\x1b[ q"),
+        ign(b"\x1b[E"),
+        ign(b"\x00"),
+        ign(b"\x07"),
+        ign(b"\x1b\x1b[1;2R"),
+    ];
+    let cfgs: Vec<(usize, usize)> = if tier == "quick" { vec![(3, 4)] } else { vec![(3, 4), (4, 6)] };
+    for (cb, hb) in cfgs {
+        let cfg = base_cfg(
+            "C04",
+            format!("decoding through the Cli cb={} hb={} raw", cb, hb),
+            cb,
+            hb,
+            events.clone(),
+            Mon { dispatch: true, term: true, editor: true, ignored_inert: true, invariants: true, ..Default::default() },
+        );
+        let name = cfg.label.clone();
+        run_raw(rep, cfg, &caps, seed);
+        rep.required.push((name, "ignored_sequences_checked".into()));
+    }
 }
